@@ -203,6 +203,9 @@ mod expand;
 mod parse;
 mod replacer;
 mod vm;
+#[cfg(fancy_regex_verif)]
+#[doc(hidden)]
+pub mod verif_hooks;
 
 use crate::analyze::analyze;
 use crate::compile::compile_with_options;
